@@ -15,7 +15,7 @@
    state unchanged) and any physical clock readings. *)
 From Coq Require Import ZArith QArith Qround List Bool Sorting.Sorted.
 Require Import SC3.model.KProg SC3.model.KNrt SC3.model.KRt.
-Require Import SC3.proofs.C05_frame SC3.proofs.C07_runs SC3.proofs.C05_props SC3.proofs.C05_exec.
+Require Import SC3.proofs.C05_frame SC3.proofs.C07_runs SC3.proofs.C05_props SC3.proofs.C05_exec SC3.proofs.C05_secs.
 Import ListNotations.
 Open Scope Q_scope.
 
@@ -184,6 +184,39 @@ Example c05_sigma_instance :
   (3#4) == (1#2) + Qsum (firstn 2 [1#8; 1#8]).
 Proof. vm_compute. repeat split; try tauto; discriminate. Qed.
 
+(* ---- seconds on a TempoClock: the deltas "converted through the clock's tempo" ---------------------------
+   kth_resume_time_* is a law on BEATS (on a TempoClock its sec_ok is empty).  Here, for every program, every
+   fuel (NRT, repaired code) resp. EVERY oracle (RT): as long as the tempo of TempoClock i is not changed
+   during the run (notempo i log; whoever else runs, whatever other clocks do), a routine playing on it
+   observes at its k-th resumption the logical SECONDS  s == s0 + (sum of its first k deltas) * beat_dur,
+   beat_dur * tempo == 1, with the clock's (unchanged) tempo map t read from the final state.  Across a tempo
+   change of that clock the beats law still holds and each resumption logs beats == secs2beats(seconds) under
+   the map of that moment (proofs/C05_secs.v: tinv); a closed seconds form over several tempo segments is not
+   stated. *)
+Theorem kth_resume_time_seconds_nrt : forall qk p fuel rid k i s b c0 s0 b0,
+  qk_app_abs qk = false -> qk_tempo_frozen qk = false ->
+  let st := nrt_loop qk p fuel (nrt_main qk p) in
+  In (EvResume rid k (CTempo i) s b) (n_log st) -> In (EvResume rid 0 c0 s0 b0) (n_log st) ->
+  notempo i (n_log st) ->
+  exists r t, nth_error (n_routs st) rid = Some r /\ nth_error (n_tcs st) i = Some t /\
+              s == s0 + Qsum (firstn k (ys_of p r)) * t_bdur t /\ t_bdur t * t_tempo t == 1.
+Proof. exact seconds_sigma_nrt. Qed.
+Theorem kth_resume_time_seconds_rt : forall off p sched rid k i s b c0 s0 b0,
+  let st := rs (rt_run off p sched) in
+  In (EvResume rid k (CTempo i) s b) (n_log st) -> In (EvResume rid 0 c0 s0 b0) (n_log st) ->
+  notempo i (n_log st) ->
+  exists r t, nth_error (n_routs st) rid = Some r /\ nth_error (n_tcs st) i = Some t /\
+              s == s0 + Qsum (firstn k (ys_of p r)) * t_bdur t /\ t_bdur t * t_tempo t == 1.
+Proof. exact seconds_sigma_rt. Qed.
+(* the hypotheses hold on the run of c05_p: routine 2 on TempoClock(2) (no tempo change in the run) is at
+   1/4 s when it starts and at 1/4 + (1/8 + 1/8) * (1/2) = 3/8 s at its 2nd resumption *)
+Example c05_seconds_instance :
+  notempo 0 (n_log (nrt_loop repaired c05_p 20 (nrt_main repaired c05_p))) /\
+  (3#8) == (1#4) + Qsum (firstn 2 [1#8; 1#8]) * (1#2).
+Proof.
+  split; [|vm_compute; reflexivity]. apply no_tempo_b_sound. vm_compute. reflexivity.
+Qed.
+
 Print Assumptions wake_step_law_rt.
 Print Assumptions wake_step_law_nrt.
 Print Assumptions play_step_law.
@@ -192,4 +225,6 @@ Print Assumptions kth_resume_time_rt.
 Print Assumptions child_starts_at_parent_time.
 Print Assumptions child_starts_at_parent_time_rt.
 Print Assumptions nrt_time_monotone.
+Print Assumptions kth_resume_time_seconds_nrt.
+Print Assumptions kth_resume_time_seconds_rt.
 Print Assumptions nrt_elapsed_ends_at_last_instant.
